@@ -137,9 +137,11 @@ def spaces(tier):
         anchors = anchors_for(n)
         for where in ("view", "transform", "view_and_transform_same", "view_and_transform_permuted",
                       "view_and_transform_drop0", "view_and_transform_drop1"):
-            for idless in (False, True):
+            for idless in (False, True, "mixed"):
                 if idless and "drop" in where:
                     continue      # which definition an id-less analysis insertion continues is undefined
+                if idless == "mixed" and where not in ("view", "transform"):
+                    continue
                 for il in itertools.product(anchors, repeat=2):
                     for ex in (None, [3, 1]):
                         for perm in (0, 1):      # category ids ascending / not ascending in the payload
@@ -225,7 +227,8 @@ def _describe(state):
 def _insertions(anchors, idless=False):
     out = []
     for k, a in enumerate(anchors):
-        d = subtotal("s%d" % k, ADDENDS[k % 3], anchor=a, sid=None if idless else 10 + k)
+        no_id = idless is True or (idless == "mixed" and k > 0)      # "mixed": the first carries an id, the rest do not
+        d = subtotal("s%d" % k, ADDENDS[k % 3], anchor=a, sid=None if no_id else 10 + k)
         d["alias"] = "al_s%d" % k
         out.append(d)
     return out
@@ -300,6 +303,8 @@ def _run_cat(n, anchors, explicit, hidden, where="transform", idless=False, dim=
             sub_ids = {k: k + 1 for k in range(len(eff))}
         else:
             sub_ids = payload_rank_ids(ids, eff_anchors)
+        # an insertion that carries its own id keeps it; the id-less ones are numbered among ALL insertions
+        sub_ids = {k: (eff[k]["id"] if eff[k].get("id") is not None else v) for k, v in sub_ids.items()}
     else:
         sub_ids = {k: eff[k]["id"] for k in range(len(eff or []))}
     PAYLOAD_SPEC[id(part)] = (part, part_payload_spec, idless and view_ins is not None and t_ins is not None)
